@@ -148,6 +148,18 @@ theorem vote_requires_online_bridger (s : State) (w i n h : Nat) (k : Kind) (e :
   obtain ⟨a, orc, h1, h2, h3, _, _, _, heq⟩ := claim_ok s w i n h k hok
   exact ⟨a, orc, h1, h2, h3, by rw [heq, attest_lastNonce]; exact get_set_self _ _ _⟩
 
+/-- in every reachable state the bridger index is consistent with the registry, so the accepted claim's bridger is THE
+bridger registered in the record of the online oracle whose vote is recorded -/
+theorem voter_is_registered_bridger (p : Params) (ops : List Op) (w i n h : Nat) (k : Kind) (e : Nat)
+    (hok : (step (reach p ops) (.claim w i n h k e)).2 = .ok) :
+    ∃ a orc, (reach p ops).byBridger.get (voter w i) = some a ∧ (reach p ops).oracles.get a = some orc ∧
+      orc.online = true ∧ orc.bridger = voter w i := by
+  obtain ⟨a, orc, h1, h2, h3, _⟩ := vote_requires_online_bridger (reach p ops) w i n h k e hok
+  have hB : BInv (reach p ops) := binv_run _ ops (by intro b a hg; simp [init, Map.get] at hg)
+  obtain ⟨orc', ho', hb'⟩ := hB _ _ h1
+  rw [h2] at ho'; cases ho'
+  exact ⟨a, orc, h1, h2, h3, hb'⟩
+
 /-- a rejected claim changes nothing -/
 theorem rejected_claim_no_effect (s : State) (w i n h : Nat) (k : Kind) (e : Nat)
     (hne : (step s (.claim w i n h k e)).2 ≠ .ok) : (step s (.claim w i n h k e)).1 = s := by
